@@ -615,6 +615,11 @@ fn default_writer(
             sval::stream_display(&mut *stream, self.0.tpl())?;
             stream.record_value_end(None, &sval::Label::new(KEY_TPL))?;
 
+            // If a property fails to stream then the record can't be completed;
+            // the failure is returned so the event is discarded instead of
+            // leaving a truncated, unbalanced line in the file
+            let mut result = Ok(());
+
             let _ = self.0.props().dedup().for_each(|k, v| {
                 match (|| {
                     stream.record_value_begin(None, &sval::Label::new_computed(k.get()))?;
@@ -624,9 +629,15 @@ fn default_writer(
                     Ok::<(), sval::Error>(())
                 })() {
                     Ok(()) => ControlFlow::Continue(()),
-                    Err(_) => ControlFlow::Break(()),
+                    Err(e) => {
+                        result = Err(e);
+
+                        ControlFlow::Break(())
+                    }
                 }
             });
+
+            result?;
 
             stream.record_end(None, None, None)
         }
